@@ -8,6 +8,8 @@
 //	    opts   := s        sticky session on a balancer (cookie sk<idx>)
 //	              f<code>  breaker fallback = ResponseFallback{code,"text/fb","fb-body"};  fr = RedirectFallback
 //	              q<n> r<n> m<n>   buffer MaxRequestBodyBytes / MaxResponseBodyBytes / Mem{Request,Response}BodyBytes
+//	              t        buffer Retry("IsNetworkError() && Attempts() <= 2")
+//	              v        the layer's Verbose/Debug option on and a Logger installed (all kinds; trace and ratelimit: Logger only)
 //	              p<ms>    ratelimit period in milliseconds (default 1000): passing = 10^6 per period, at its limit = 1 per period burst 1
 //	    intervene=<idx>: the layer at that position (0 = outermost) is driven to its limit before the first op:
 //	              connlimit max=1 with one request parked inside the handler (every other connlimit: max = 1 + parked requests,
@@ -28,13 +30,17 @@
 //	       fi/hi: the handler's ResponseWriter implements http.Flusher / http.Hijacker ("-" = handler not invoked)
 //	    -> err transport:<class> invoked=<n> [panic=<msg>] | err body:<class> status=<code> invoked=<n>   (no complete response)
 //	       an exchange that hits the 25 s client timeout is repeated once as a fresh request
+//	    -> env-error <class>   the host ran out of ports (EADDRINUSE / EADDRNOTAVAIL) even after retries: not a statement about the code
+//	    client connections are closed with SO_LINGER 0 (RST) so that tens of thousands of requests leave no TIME_WAIT sockets
 package main
 
 import (
+	"context"
 	"fmt"
 	"hash/adler32"
 	"io"
 	"log"
+	"net"
 	"net/http"
 	"net/http/httptest"
 	"net/http/httptrace"
@@ -67,6 +73,8 @@ type layerSpec struct {
 	fb       string // "", "r", "<code>"
 	q, r, m  int64
 	periodMs int64
+	retry    bool
+	verbose  bool
 }
 
 type script struct {
@@ -307,6 +315,10 @@ func parseStack(v string) ([]layerSpec, error) {
 				l.sticky = true
 			case o == "fr":
 				l.fb = "r"
+			case o == "t":
+				l.retry = true
+			case o == "v":
+				l.verbose = true
 			case strings.HasPrefix(o, "f"):
 				l.fb = o[1:]
 				hx.Atoi(l.fb)
@@ -327,6 +339,17 @@ func parseStack(v string) ([]layerSpec, error) {
 	return out, nil
 }
 
+// fmtLogger formats every message (so that the arguments are really evaluated) and drops it.
+type fmtLogger struct{ n int64 }
+
+func (l *fmtLogger) log(msg string, args ...any) {
+	atomic.AddInt64(&l.n, int64(len(fmt.Sprintf(msg, args...))))
+}
+func (l *fmtLogger) Debug(msg string, args ...any) { l.log(msg, args...) }
+func (l *fmtLogger) Info(msg string, args ...any)  { l.log(msg, args...) }
+func (l *fmtLogger) Warn(msg string, args ...any)  { l.log(msg, args...) }
+func (l *fmtLogger) Error(msg string, args ...any) { l.log(msg, args...) }
+
 var source = utils.ExtractorFunc(func(*http.Request) (string, int64, error) { return "src", 1, nil })
 
 func build(specs []layerSpec, intervene int, inner http.Handler) (http.Handler, error) {
@@ -336,17 +359,30 @@ func build(specs []layerSpec, intervene int, inner http.Handler) (http.Handler, 
 		trip := i == intervene
 		var h http.Handler
 		var err error
+		lg := &fmtLogger{}
 		switch l.kind {
 		case "stream":
-			h, err = stream.New(next)
+			if l.verbose {
+				h, err = stream.New(next, stream.Verbose(true), stream.Logger(lg))
+			} else {
+				h, err = stream.New(next)
+			}
 		case "trace":
-			h, err = trace.New(next, io.Discard)
+			if l.verbose {
+				h, err = trace.New(next, io.Discard, trace.Logger(lg), trace.RequestHeaders("X-Req-Id"), trace.ResponseHeaders("Content-Type"))
+			} else {
+				h, err = trace.New(next, io.Discard)
+			}
 		case "connlimit":
 			max := int64(1)
 			if !trip && intervene >= 0 && specs[intervene].kind == "connlimit" {
 				max = 2 // the parked request sits in one slot of every connlimit of the stack
 			}
-			h, err = connlimit.New(next, source, max)
+			if l.verbose {
+				h, err = connlimit.New(next, source, max, connlimit.Verbose(true), connlimit.Logger(lg))
+			} else {
+				h, err = connlimit.New(next, source, max)
+			}
 		case "ratelimit":
 			rs := ratelimit.NewRateSet()
 			period := time.Second
@@ -359,7 +395,11 @@ func build(specs []layerSpec, intervene int, inner http.Handler) (http.Handler, 
 				err = rs.Add(period, 1000000, 1000000)
 			}
 			if err == nil {
-				h, err = ratelimit.New(next, source, rs)
+				if l.verbose {
+					h, err = ratelimit.New(next, source, rs, ratelimit.Logger(lg))
+				} else {
+					h, err = ratelimit.New(next, source, rs)
+				}
 			}
 		case "cbreaker":
 			expr := "NetworkErrorRatio() > 2.0"
@@ -367,15 +407,22 @@ func build(specs []layerSpec, intervene int, inner http.Handler) (http.Handler, 
 				expr = "ResponseCodeRatio(500, 600, 0, 600) > 0.5"
 			}
 			var opts []cbreaker.Option
+			var rfo []cbreaker.ResponseFallbackOption
+			var rdo []cbreaker.RedirectFallbackOption
+			if l.verbose {
+				opts = append(opts, cbreaker.Verbose(true), cbreaker.Logger(lg))
+				rfo = append(rfo, cbreaker.ResponseFallbackDebug(true), cbreaker.ResponseFallbackLogger(lg))
+				rdo = append(rdo, cbreaker.RedirectFallbackDebug(true), cbreaker.RedirectFallbackLogger(lg))
+			}
 			switch {
 			case l.fb == "r":
-				fb, e := cbreaker.NewRedirectFallback(cbreaker.Redirect{URL: "http://fallback.verif/x"})
+				fb, e := cbreaker.NewRedirectFallback(cbreaker.Redirect{URL: "http://fallback.verif/x"}, rdo...)
 				if e != nil {
 					return nil, e
 				}
 				opts = append(opts, cbreaker.Fallback(fb))
 			case l.fb != "":
-				fb, e := cbreaker.NewResponseFallback(cbreaker.Response{StatusCode: hx.Atoi(l.fb), ContentType: "text/fb", Body: []byte("fb-body")})
+				fb, e := cbreaker.NewResponseFallback(cbreaker.Response{StatusCode: hx.Atoi(l.fb), ContentType: "text/fb", Body: []byte("fb-body")}, rfo...)
 				if e != nil {
 					return nil, e
 				}
@@ -384,6 +431,9 @@ func build(specs []layerSpec, intervene int, inner http.Handler) (http.Handler, 
 			h, err = cbreaker.New(next, expr, opts...)
 		case "roundrobin":
 			var opts []roundrobin.LBOption
+			if l.verbose {
+				opts = append(opts, roundrobin.Verbose(true), roundrobin.Logger(lg))
+			}
 			if l.sticky {
 				opts = append(opts, roundrobin.EnableStickySession(roundrobin.NewStickySession("sk"+strconv.Itoa(i))))
 			}
@@ -400,6 +450,9 @@ func build(specs []layerSpec, intervene int, inner http.Handler) (http.Handler, 
 				return nil, err
 			}
 			var opts []roundrobin.RebalancerOption
+			if l.verbose {
+				opts = append(opts, roundrobin.RebalancerDebug(true), roundrobin.RebalancerLogger(lg))
+			}
 			if l.sticky {
 				opts = append(opts, roundrobin.RebalancerStickySession(roundrobin.NewStickySession("sk"+strconv.Itoa(i))))
 			}
@@ -411,6 +464,12 @@ func build(specs []layerSpec, intervene int, inner http.Handler) (http.Handler, 
 			h = rb
 		case "buffer":
 			var opts []buffer.Option
+			if l.verbose {
+				opts = append(opts, buffer.Verbose(true), buffer.Logger(lg))
+			}
+			if l.retry {
+				opts = append(opts, buffer.Retry(`IsNetworkError() && Attempts() <= 2`))
+			}
 			if l.q > 0 {
 				opts = append(opts, buffer.MaxRequestBodyBytes(l.q))
 			}
@@ -513,6 +572,13 @@ func (s *scen) Op(f []string) string {
 		return s.abortExchange(body)
 	}
 	out, timedOut := s.exchange(body)
+	for try := 0; try < 4 && strings.HasPrefix(out, "err transport:") && (strings.Contains(out, "cannot_assign") || strings.Contains(out, "address_already_in_use")); try++ {
+		time.Sleep(500 * time.Millisecond)
+		out, timedOut = s.exchange(body)
+	}
+	if strings.HasPrefix(out, "err transport:cannot_assign") || strings.HasPrefix(out, "err transport:address_already_in_use") {
+		return "env-error " + strings.Fields(out)[1]
+	}
 	if timedOut {
 		// Machine-wide stalls of tens of seconds (memory exhaustion by unrelated processes) have been observed; the
 		// exchange is repeated once as a fresh request.  A reproducible hang times out again and is reported.
@@ -597,12 +663,44 @@ func panicNote(st *reqState) string {
 
 func errClass(err error) string {
 	m := err.Error()
-	for _, k := range []string{"EOF", "Timeout exceeded", "deadline exceeded", "connection refused", "connection reset", "cannot assign", "broken pipe", "malformed"} {
+	for _, k := range []string{"EOF", "Timeout exceeded", "deadline exceeded", "connection refused", "connection reset", "cannot assign", "address already in use", "broken pipe", "malformed"} {
 		if strings.Contains(m, k) {
 			return strings.ReplaceAll(k, " ", "_")
 		}
 	}
 	return "other"
+}
+
+func isEnvErr(err error) bool {
+	c := errClass(err)
+	return c == "cannot_assign" || c == "address_already_in_use"
+}
+
+// newTransport: one connection per request, dialled with retries when the host is out of ports, and closed with
+// SO_LINGER 0 so that the client side sends RST instead of leaving a TIME_WAIT socket behind.
+func newTransport() *http.Transport {
+	d := &net.Dialer{Timeout: 10 * time.Second}
+	return &http.Transport{
+		DisableKeepAlives:  true,
+		DisableCompression: true,
+		DialContext: func(ctx context.Context, network, addr string) (net.Conn, error) {
+			var c net.Conn
+			var err error
+			for try := 0; try < 20; try++ {
+				if c, err = d.DialContext(ctx, network, addr); err == nil || !isEnvErr(err) {
+					break
+				}
+				time.Sleep(100 * time.Millisecond)
+			}
+			if err != nil {
+				return nil, err
+			}
+			if t, ok := c.(*net.TCPConn); ok {
+				_ = t.SetLinger(0)
+			}
+			return c, nil
+		},
+	}
 }
 
 // fronts: what the outermost layer gets as its ResponseWriter when the server's own writer is wrapped
@@ -697,7 +795,7 @@ func newScenario(cfg []string) (hx.Handler, string) {
 	s.srv.Config.ErrorLog = log.New(io.Discard, "", 0)
 	s.srv.Start()
 	s.client = &http.Client{
-		Transport:     &http.Transport{DisableKeepAlives: true, DisableCompression: true},
+		Transport:     newTransport(),
 		CheckRedirect: func(*http.Request, []*http.Request) error { return http.ErrUseLastResponse },
 		Timeout:       25 * time.Second,
 	}
@@ -707,7 +805,7 @@ func newScenario(cfg []string) (hx.Handler, string) {
 			s.holdDone = make(chan struct{})
 			go func() {
 				defer close(s.holdDone)
-				c := &http.Client{Transport: &http.Transport{DisableKeepAlives: true}}
+				c := &http.Client{Transport: newTransport()}
 				s.seq++
 				req, _ := http.NewRequest(http.MethodGet, s.srv.URL+"/hold", nil)
 				req.Header.Set("X-Req-Id", "hold")
@@ -726,11 +824,17 @@ func newScenario(cfg []string) (hx.Handler, string) {
 		case "ratelimit":
 			if err := s.prime("200"); err != nil {
 				s.Close()
+				if isEnvErr(err) {
+					return nil, "env-error prime"
+				}
 				return nil, "err prime ratelimit"
 			}
 		case "cbreaker":
 			if err := s.prime("500"); err != nil {
 				s.Close()
+				if isEnvErr(err) {
+					return nil, "env-error prime"
+				}
 				return nil, "err prime cbreaker"
 			}
 		}
